@@ -12,5 +12,5 @@ done
 
 # every generated file now exists: check that each path condition of Cgm/Trace/Cover.lean implies the hypotheses of the
 # obligation it is copied from
-(cd lean && lake build Cgm.Trace.CoverLink Cgm.Trace.CoverLink2 > ../work/runall_coverlink.log 2>&1 && echo "CoverLink ok" || echo "CoverLink FAILED (work/runall_coverlink.log)")
+(cd lean && lake build Cgm.Trace.CoverLink Cgm.Trace.CoverLink2 Cgm.Trace.CoverLink3 Cgm.Trace.CoverLink4 > ../work/runall_coverlink.log 2>&1 && echo "CoverLink ok" || echo "CoverLink FAILED (work/runall_coverlink.log)")
 echo ALLDONE
